@@ -89,10 +89,12 @@ def matches_on(fn_hir, sty_re, min_arms=1, src="Normal"):
             if rx.search(m.get("sty", "")) and len(m["arms"]) >= min_arms and (src is None or m.get("src") == src)]
 
 
-def the_match(fn_hir, sty_re, min_arms=2):
+def the_match(fn_hir, sty_re, min_arms=2, first=False):
     ms = matches_on(fn_hir, sty_re, min_arms)
     if not ms:
         raise AnchorMissing(f"no match on /{sty_re}/ with >= {min_arms} arms in {fn_hir['key']}")
+    if first:
+        return ms[0]   # pre-order: the outermost / earliest match
     return max(ms, key=lambda m: len(m["arms"]))
 
 
